@@ -68,6 +68,10 @@ pub trait VKind: 'static {
     fn restrict(f: &Self::F, cube: &Self::F) -> Option<Result<Self::F, String>>;
     fn interp(f: &Self::F, digits: &[usize]) -> Self::V;
     fn eval(f: &Self::F, digits: &[usize]) -> Self::V;
+    /// eval with an explicit (possibly partial, possibly repeating) argument list
+    fn eval_args(f: &Self::F, args: &[(VarNo, usize)]) -> Self::V;
+    /// the digit eval() documents for a decision variable without a value in `args`
+    const MISSING_DIGIT: usize;
     fn audit(mr: &VMRef<Self>, handles: &[&Self::F], check_rc: bool) -> Result<AuditInfo, String>;
     fn set_var_order(mr: &VMRef<Self>, order: &[VarNo], seq: bool);
     fn root_level(f: &Self::F) -> Option<u32>;
@@ -194,6 +198,10 @@ macro_rules! mt_kind {
             fn eval(f: &Self::F, digits: &[usize]) -> $V {
                 $from(&PseudoBooleanFunction::eval(f, digits.iter().enumerate().map(|(v, d)| (v as u32, *d == 1))))
             }
+            fn eval_args(f: &Self::F, args: &[(VarNo, usize)]) -> $V {
+                $from(&PseudoBooleanFunction::eval(f, args.iter().map(|(v, d)| (*v, *d == 1))))
+            }
+            const MISSING_DIGIT: usize = 0;
             fn audit(mr: &VMRef<Self>, handles: &[&Self::F], check_rc: bool) -> Result<AuditInfo, String> {
                 mr.with_manager_exclusive(|m| {
                     let roots: Vec<_> = handles.iter().map(|h| h.as_edge(m)).collect();
@@ -336,6 +344,27 @@ impl VKind for TddK {
     }
     fn interp(f: &Self::F, digits: &[usize]) -> Tri {
         f.with_manager_shared(|m, e| interp_val(m, e, digits, 3, &|t: &TDDTerminal| tri_from(t)))
+    }
+    const MISSING_DIGIT: usize = 1;
+    fn eval_args(f: &Self::F, args: &[(VarNo, usize)]) -> Tri {
+        let r = TVLFunction::eval(
+            f,
+            args.iter().map(|(v, d)| {
+                (
+                    *v,
+                    match d {
+                        0 => Some(false),
+                        1 => None,
+                        _ => Some(true),
+                    },
+                )
+            }),
+        );
+        match r {
+            Some(false) => Tri::F,
+            None => Tri::U,
+            Some(true) => Tri::T,
+        }
     }
     fn eval(f: &Self::F, digits: &[usize]) -> Tri {
         let r = TVLFunction::eval(
